@@ -109,8 +109,9 @@ struct World3 {
     if (op.kind == 0) {
       acetime_t v = (acetime_t)op.arg;
       if (v != Clock::kInvalidSeconds) {
-        set_matched_true_time = init && model_now() == v;
-        set_matched_stale = (SF::epoch(clk) == v);
+        set_matched_stale = (SF::epoch(clk) == v);            // cached second equals the new value (D7, fixed)
+        // what the clock would read right now, computed from its fields WITHOUT calling getNow() (a read here could mask a stale-cache bug)
+        set_matched_true_time = clk.isInit() && (int64_t)SF::epoch(clk) + (uint16_t)((uint16_t)g_ms - SF::prev(clk)) / 1000 == (int64_t)v;   // setNow(v) while reading v is a no-op by design (known finding)
         clk.setNow(v);
         init = true; T = v; mset = m; lastSync = v; lastRead = INT64_MIN; lastTouch = m; unjudged = false;
       } else clk.setNow(v);
